@@ -638,7 +638,7 @@ func goKnownOSArch() []string {
 // flag when any response — default, success or any other status code — streams.
 func checkStreamingFlag(c *Ctx, gen *packages.Package) {
 	rule := "C01.R11.streaming-flag"
-	c.Rule(rule, "HasStreamingResponse is raised from the default response, the success responses and every status-code response", 3)
+	c.Rule(rule, "HasStreamingResponse is raised from the default response, the success responses and every status-code response", 2)
 	fd := load.FuncDecl(gen, "codeGenOpBuilder.MakeOperation")
 	if fd == nil {
 		c.Anchor(rule, "generator.codeGenOpBuilder.MakeOperation", "not found")
@@ -659,7 +659,9 @@ func checkStreamingFlag(c *Ctx, gen *packages.Package) {
 		c.Anchor(rule, "generator.codeGenOpBuilder.MakeOperation › HasStreamingResponse", "the field is not fed from a local")
 		return
 	}
-	sources := map[string]bool{}
+	// variables tested on the way to `flag = true`, by role: the default response is the only
+	// *GenResponse, the success list and the full list are the two []GenResponse / GenResponses
+	ptrs, lists := map[types.Object]bool{}, map[types.Object]bool{}
 	goan.WalkGuards(info, fd.Body, func(n ast.Node, guards []goan.Lit, loops []ast.Stmt) {
 		as, ok := n.(*ast.AssignStmt)
 		if !ok || len(as.Lhs) != 1 || !identIs(info, as.Lhs[0], flag) || !goan.IsIdent(as.Rhs[0], "true") {
@@ -667,9 +669,26 @@ func checkStreamingFlag(c *Ctx, gen *packages.Package) {
 		}
 		note := func(e ast.Node) {
 			ast.Inspect(e, func(m ast.Node) bool {
-				if id, ok := m.(*ast.Ident); ok {
-					if v, ok := info.Uses[id].(*types.Var); ok && !v.IsField() {
-						sources[id.Name] = true
+				id, ok := m.(*ast.Ident)
+				if !ok {
+					return true
+				}
+				v, ok := info.Uses[id].(*types.Var)
+				if !ok || v.IsField() {
+					return true
+				}
+				switch t := v.Type().(type) {
+				case *types.Pointer:
+					if goan.NamedName(t.Elem()) == "GenResponse" {
+						ptrs[v] = true
+					}
+				case *types.Slice:
+					if goan.NamedName(t.Elem()) == "GenResponse" {
+						lists[v] = true
+					}
+				case *types.Named:
+					if sl, ok := t.Underlying().(*types.Slice); ok && goan.NamedName(sl.Elem()) == "GenResponse" {
+						lists[v] = true
 					}
 				}
 				return true
@@ -684,8 +703,8 @@ func checkStreamingFlag(c *Ctx, gen *packages.Package) {
 			}
 		}
 	})
-	for _, want := range []struct{ name, what string }{{"defaultResponse", "the default response"}, {"successResponses", "the success responses"}, {"responses", "every status-code response"}} {
-		c.Check(sources[want.name], rule, "generator.codeGenOpBuilder.MakeOperation › HasStreamingResponse considers "+want.what, c.posOf(gen, fd.Pos()), "raised under a test of "+want.name,
-			"HasStreamingResponse is never raised from "+want.what+": a streamed ("+"type: file) response of that kind makes the generated client reader use a `writer` field that its struct does not declare — the client does not compile")
-	}
+	c.Check(len(ptrs) >= 1, rule, "generator.codeGenOpBuilder.MakeOperation › HasStreamingResponse considers the default response", c.posOf(gen, fd.Pos()), "raised under a test of the *GenResponse",
+		"HasStreamingResponse is never raised from the default response: a streamed default response makes the generated client reader use a `writer` field its struct does not declare")
+	c.Check(len(lists) >= 2, rule, "generator.codeGenOpBuilder.MakeOperation › HasStreamingResponse considers the success responses and every status-code response", c.posOf(gen, fd.Pos()), fmt.Sprintf("raised under tests of %d response lists", len(lists)),
+		fmt.Sprintf("HasStreamingResponse is raised from %d of the 2 response lists (success responses, all status-code responses): a streamed (type: file) response on a code outside the list makes the generated client reader use a `writer` field that its struct does not declare — the client does not compile", len(lists)))
 }
